@@ -1,5 +1,7 @@
 import WfProofs.IterUtilsDspThm
 import WfProofs.IterUtilsProgress
+import WfProofs.IterDebounce
+import WfProofs.IterUtilsMergeExt
 /-!
 # C29 — stream merge and sorted-prefix utilities preserve items and order
 
@@ -172,6 +174,107 @@ example : ∃ m : Merge Nat, (Merge.init false 3).exec [.prod 0 7, .prod 1 8, .e
     ∧ m.exc = some 5 ∧ m.phase = .suspended 0 [(1, 8)] :=
   ⟨_, rfl, rfl, rfl⟩
 
+/-! ## merge_generators: where every produced item is, at every moment -/
+
+/-- **Accounting, for every reachable state** (either flag, any number of sources, errors or not): the
+    sequence of source `i` is, in this order, what was yielded from it, then what sits in
+    `completed_results` waiting for its `yield`, then what the `stop_on_first_completion` break discarded,
+    then the value of its finished task that has not been looked at.  So every produced item is in exactly
+    one of these four places, none is duplicated and none invented, at every point of every execution. -/
+theorem C29_merge_accounting (sf : Bool) (n : Nat) (acts : List (Act α)) (m : Merge α)
+    (h : (Merge.init sf n).exec acts = some m) (i : Nat) :
+    proj i m.out ++ proj i m.phase.rest ++ proj i m.dropped ++ slotItem m.slots[i]? = C29_sourceSeq i acts
+    ∧ (m.stopped = false → m.dropped = []) := by
+  have hi := exec_inv (init_inv sf n) acts h
+  have hf := (exec_fields acts h).1
+  refine ⟨?_, hi.dropNil⟩
+  rw [hi.conserve i, hf]
+  simp [C29_sourceSeq, Merge.init]
+
+example : ∃ m : Merge Nat,
+    (Merge.init true 3).exec [.prod 0 7, .prod 1 8, .batch [1, 0], .prod 2 5] = some m
+    ∧ m.out = [(1, 8)] ∧ m.phase.rest = [(0, 7)] ∧ slotItem m.slots[2]? = [5] :=
+  ⟨_, rfl, rfl, rfl, rfl⟩
+
+/-- **Back-pressure: no source ever runs more than one item ahead of the consumer.**  In every reachable
+    state that has not stopped on a first completion, the items source `i` has produced are the items
+    yielded from it plus at most ONE more (collected and waiting for its `yield`, or sitting in its finished
+    task — never both): `merge_generators` holds one task per source and starts the next `anext` only after
+    the previous value was handed over. -/
+theorem C29_merge_lag_le_one (sf : Bool) (n : Nat) (acts : List (Act α)) (m : Merge α)
+    (h : (Merge.init sf n).exec acts = some m) (hst : m.stopped = false) (i : Nat) :
+    (C29_sourceSeq i acts).length ≤ (proj i m.out).length + 1
+    ∧ (proj i m.phase.rest).length + (slotItem m.slots[i]?).length ≤ 1 := by
+  have hi := exec_inv (init_inv sf n) acts h
+  have hx := exec_xinv (init_inv sf n) (init_xinv sf n) acts h
+  have hl := lag_of_inv hx i
+  refine ⟨?_, hl⟩
+  have hacc := (C29_merge_accounting sf n acts m h i).1
+  rw [hi.dropNil hst] at hacc
+  rw [← hacc]
+  simp only [proj_nil, List.append_nil, List.length_append]
+  omega
+
+example : ∃ m : Merge Nat,
+    (Merge.init false 2).exec [.prod 0 7, .prod 1 8, .batch [1, 0], .resume, .prod 1 9] = some m
+    ∧ (C29_sourceSeq 1 [.prod 0 7, .prod 1 8, .batch [1, 0], .resume, .prod 1 9]).length = 2
+    ∧ (proj 1 m.out).length = 1 ∧ m.stopped = false :=
+  ⟨_, rfl, rfl, rfl, rfl⟩
+
+/-- **`stop_on_first_completion=True`.**  For every execution with the flag set and at least one source:
+    the merge returns normally only by stopping on a completion, and then some source really has ended;
+    once it has stopped it never yields again (it is finished); results are discarded only by that stop;
+    and no slot is ever retired (`gone`) — with the flag an ended source always stops the merge. -/
+theorem C29_merge_stop_on_first_completion (n : Nat) (acts : List (Act α)) (m : Merge α)
+    (h : (Merge.init true n).exec acts = some m) :
+    (0 < n → m.phase = .finished none → m.stopped = true ∧ ∃ i, i ∈ acts.filterMap Act.finOf)
+    ∧ (m.stopped = true → ∃ r, m.phase = .finished r)
+    ∧ (m.dropped ≠ [] → m.stopped = true)
+    ∧ (∀ i : Nat, m.slots[i]? ≠ some Slot.gone) := by
+  have hi := exec_inv (init_inv true n) acts h
+  have hx := exec_xinv (init_inv true n) (init_xinv true n) acts h
+  obtain ⟨_, _, hends, hsf, hlen⟩ := exec_fields acts h
+  have hsf' : m.stopFirst = true := by rw [hsf]; rfl
+  have hgone : ∀ i : Nat, m.slots[i]? ≠ some Slot.gone := by
+    intro i hg
+    have := hx.goneFlag i hg
+    rw [hsf'] at this; cases this
+  refine ⟨?_, hi.stopFin, ?_, hgone⟩
+  · intro hn hp
+    have hstop : m.stopped = true := by
+      cases hs : m.stopped with
+      | true => rfl
+      | false =>
+        exfalso
+        have hlen' : 0 < m.slots.length := by rw [hlen]; simpa [Merge.init] using hn
+        have h0 : m.slots[0]? = some m.slots[0] := List.getElem?_eq_getElem hlen'
+        have ht := hi.finClean hp hs m.slots[0] (List.getElem_mem hlen')
+        cases hsl : m.slots[0] with
+        | idle =>
+          rw [hsl] at h0
+          rcases hi.idle 0 h0 with h1 | ⟨j, r, h2, _⟩
+          · rw [hs] at h1; cases h1
+          · rw [hp] at h2; cases h2
+        | gone => rw [hsl] at h0; exact hgone 0 h0
+        | pending => rw [hsl] at ht; simp [Slot.hasTask] at ht
+        | item v => rw [hsl] at ht; simp [Slot.hasTask] at ht
+        | ended => rw [hsl] at ht; simp [Slot.hasTask] at ht
+        | failed e => rw [hsl] at ht; simp [Slot.hasTask] at ht
+    refine ⟨hstop, ?_⟩
+    obtain ⟨i, hie⟩ := hx.stopEnded hstop
+    have := hi.core.endSlot i (Or.inl hie)
+    rw [hends] at this
+    exact ⟨i, by simpa [Merge.init] using this⟩
+  · intro hd
+    cases hs : m.stopped with
+    | true => rfl
+    | false => exact absurd (hi.dropNil hs) hd
+
+example : ∃ m : Merge Nat,
+    (Merge.init true 2).exec [.prod 0 7, .fin 1, .batch [0, 1]] = some m
+    ∧ m.phase = .finished none ∧ m.stopped = true ∧ m.dropped = [(0, 7)] ∧ m.out = [] :=
+  ⟨_, rfl, rfl, rfl, rfl, rfl⟩
+
 /-! ## list.sort(key=key) -/
 
 /-- `sortByKey` is a stable sort: a permutation, non-decreasing in the key, equal keys in
@@ -304,3 +407,134 @@ theorem C29_dsp_error (mode : PassMode) (key : β → Nat) (acts : List (DAct β
 example : ∃ s : Dsp Nat, (Dsp.init Gen.passMode).exec id [.prod 5, .batch [0], .resume, .err 42, .batch [0]] = some s
     ∧ s.m.phase = .finished (some 42) ∧ s.dout = [] :=
   ⟨_, rfl, rfl, rfl⟩
+
+/-! ## Debouncer: when the debounce window closes
+
+`WfModel/IterDebounce.lean`: explicit monotone clock; actions `extend t` (`extend_window()` at clock
+value `t`) and `loop t` (one iteration of `_loop`, not before it is due).  The theorems quantify over
+all action lists, i.e. over all timings of the items relative to the window and all (late) resumptions
+of the `_loop` task.  In `debounced_sorted_prefix` the `extend` actions are exactly the items taken into
+the buffer (`C29_source_buffering_holds_back`) and `complete_signal.set()` is the `fire` action of `Dsp`. -/
+
+/-- clock values of the `extend_window` calls of an action list, in order -/
+def C29_extTimes (acts : List DebAct) : List Int := acts.filterMap DebAct.extOf
+
+/-- What the current source says about the timer (re-extracted on every run): `_loop` is
+    `while not signal.is_set(): now = get_time(); r = min(complete_time, max_complete_time) - now;
+    if r <= 0: signal.set() else: await sleep(r)`; `extend_window` is `complete_time = get_time() +
+    debounce_seconds`; `__init__` sets `complete_time = start + debounce`, `max_complete_time = start +
+    max_window` and starts one `_loop` task; `debounced_sorted_prefix` builds the `Debouncer` from its own two
+    parameters, whose defaults are equal (so by `C29_deb_window_fixed_when_debounce_ge_max` the default
+    window is a fixed `max_window_seconds` after the start, however the items are spaced). -/
+theorem C29_source_debouncer_shape :
+    Gen.debFireLE = true ∧ Gen.debLoopShape = true ∧ Gen.debExtendFromNow = true ∧ Gen.debInitShape = true
+    ∧ Gen.dspDebouncerArgs = true ∧ Gen.dspDefaultsKnown = true
+    ∧ 0 ≤ Gen.dspDefaultMaxWindowMs ∧ Gen.dspDefaultMaxWindowMs ≤ Gen.dspDefaultDebounceMs
+    ∧ 0 ≤ Gen.debDefaultDebounceMs ∧ 0 ≤ Gen.debDefaultMaxWindowMs := by decide
+
+/-- **The window never closes early.**  For every history: while the signal is not set the ghost list
+    `exts` is the list of all `extend_window` calls so far; and when the signal is set at clock value `t`,
+    then for the start and for EVERY `extend_window` call `u` made before, `t` is at least
+    `min (u + debounce) (start + max_window)`: an item taken into the buffer keeps the window open for a
+    full quiet period unless the max window ends first. -/
+theorem C29_deb_not_before_quiet (d w start : Int) (acts : List DebAct) (s : Deb)
+    (h : (Deb.init d w start).exec acts = some s) :
+    (s.fired = none → s.exts = (C29_extTimes acts).reverse)
+    ∧ ∀ t, s.fired = some t → start ≤ t ∧ ∀ u ∈ start :: s.exts, min (u + d) (start + w) ≤ t := by
+  have hi := deb_exec_inv (deb_init_inv d w start) acts h
+  obtain ⟨hd, hw, hs, hm⟩ := deb_exec_params acts h
+  simp only [Deb.init] at hd hw hs hm
+  refine ⟨fun hn => by simpa [Deb.init, C29_extTimes] using (deb_exec_exts acts h hn).2, ?_⟩
+  intro t ht
+  obtain ⟨hlo, hst⟩ := hi.fireLo t ht
+  have h4 := hi.startTouch
+  refine ⟨by omega, ?_⟩
+  intro u hu
+  have hu' : u ≤ s.lastTouch := by
+    rcases List.mem_cons.mp hu with rfl | hu
+    · omega
+    · exact hi.extsLe u hu
+  omega
+
+example : ∃ s : Deb, (Deb.init 4 8 0).exec [.loop 0, .extend 1, .extend 3, .loop 4, .loop 7, .extend 9] = some s
+    ∧ s.fired = some 7 ∧ s.exts = [3, 1] ∧ s.wakes = 3 :=
+  ⟨_, rfl, rfl, rfl, rfl⟩
+
+/-- **... and closes on time.**  When the signal is set at `t`: `t` is at most
+    `max start (min (lastTouch + debounce) (start + max_window))` plus the largest lateness with which the
+    event loop resumed the `_loop` task, hence at most `start + max_window` plus that lateness; with
+    punctual resumption (`late = 0`, the virtual-time loop of the check) `t` is exactly that value.
+    While the signal is not set the `_loop` task is never asleep beyond the max window. -/
+theorem C29_deb_fire_time (d w start : Int) (acts : List DebAct) (s : Deb)
+    (h : (Deb.init d w start).exec acts = some s) :
+    0 ≤ s.late
+    ∧ (s.fired = none → s.wakeAt ≤ max start (start + w))
+    ∧ ∀ t, s.fired = some t →
+        min (s.lastTouch + d) (start + w) ≤ t
+        ∧ t ≤ max start (min (s.lastTouch + d) (start + w)) + s.late
+        ∧ t ≤ max start (start + w) + s.late
+        ∧ (s.late = 0 → t = max start (min (s.lastTouch + d) (start + w))) := by
+  have hi := deb_exec_inv (deb_init_inv d w start) acts h
+  obtain ⟨hd, hw, hs, hm⟩ := deb_exec_params acts h
+  simp only [Deb.init] at hd hw hs hm
+  refine ⟨hi.late0, fun hn => ?_, ?_⟩
+  · have := hi.wake hn; omega
+  · intro t ht
+    obtain ⟨hlo, hst⟩ := hi.fireLo t ht
+    have hhi := hi.fireHi t ht
+    have := hi.late0
+    refine ⟨by omega, by omega, by omega, fun h0 => by omega⟩
+
+example : ∃ s : Deb, (Deb.init 4 8 0).exec [.loop 0, .extend 3, .loop 4, .extend 6, .loop 7, .loop 8] = some s
+    ∧ s.fired = some 8 ∧ s.late = 0 ∧ s.lastTouch = 6 :=
+  ⟨_, rfl, rfl, rfl, rfl⟩
+
+/-- **The timer loop does not spin and is never stuck.**  Counting: in every history the number of
+    iterations of `_loop` is at most the number of `extend_window` calls made before the signal was set,
+    plus two (every iteration after the first that goes back to sleep is paid for by an `extend_window`
+    since the previous one).  Progress: while the signal is not set, the iteration is enabled at every
+    clock value from its due time on, sets the signal iff the quiet period or the max window is over at
+    that clock value, and otherwise sleeps exactly until then. -/
+theorem C29_deb_loop_never_spins (d w start : Int) (acts : List DebAct) (s : Deb)
+    (h : (Deb.init d w start).exec acts = some s) :
+    s.wakes ≤ s.exts.length + 2
+    ∧ (s.fired = none → ∀ t, s.now ≤ t → s.wakeAt ≤ t →
+        ∃ s', s.step (.loop t) = some s'
+          ∧ (min s.complete (start + w) ≤ t → s'.fired = some t)
+          ∧ (t < min s.complete (start + w) → s'.fired = none ∧ s'.wakeAt = min s.complete (start + w))) := by
+  have hi := deb_exec_inv (deb_init_inv d w start) acts h
+  obtain ⟨hd, hw, hs, hm⟩ := deb_exec_params acts h
+  simp only [Deb.init] at hd hw hs hm
+  constructor
+  · cases hf : s.fired with
+    | some t => exact hi.cntFired (by simp [hf])
+    | none =>
+      by_cases hq : s.wakeAt = min s.complete s.maxc
+      · have := hi.cntStale hf hq; omega
+      · have := hi.cntFresh hf hq; omega
+  · intro hf t hn hwk
+    have := deb_loop_enabled s hf t hn hwk
+    rw [hm] at this
+    exact this
+
+example : ∃ s : Deb, (Deb.init 4 100 0).exec [.loop 0, .extend 1, .loop 4, .extend 5, .loop 5, .loop 9] = some s
+    ∧ s.fired = some 9 ∧ s.wakes = 4 ∧ s.exts.length = 2 :=
+  ⟨_, rfl, rfl, rfl, rfl⟩
+
+/-- When `debounce_seconds >= max_window_seconds >= 0` (the defaults of `debounced_sorted_prefix`:
+    `C29_source_debouncer_shape`) the spacing of the items is irrelevant: the window closes
+    `max_window_seconds` after the start, up to the lateness of the `_loop` task. -/
+theorem C29_deb_window_fixed_when_debounce_ge_max (d w start : Int) (hw0 : 0 ≤ w) (hwd : w ≤ d)
+    (acts : List DebAct) (s : Deb) (h : (Deb.init d w start).exec acts = some s) (t : Int)
+    (ht : s.fired = some t) : start + w ≤ t ∧ t ≤ start + w + s.late := by
+  have hi := deb_exec_inv (deb_init_inv d w start) acts h
+  obtain ⟨hd, hw, hs, hm⟩ := deb_exec_params acts h
+  simp only [Deb.init] at hd hw hs hm
+  obtain ⟨hlo, _⟩ := hi.fireLo t ht
+  have hhi := hi.fireHi t ht
+  have := hi.startTouch
+  constructor <;> omega
+
+example : ∃ s : Deb, (Deb.init Gen.dspDefaultDebounceMs Gen.dspDefaultMaxWindowMs 0).exec
+      [.loop 0, .extend 30, .extend 90, .loop 100] = some s ∧ s.fired = some 100 :=
+  ⟨_, rfl, rfl⟩
